@@ -151,6 +151,12 @@ def assigned(stmts, mutators):
                 add("self")      # a method of a nested object changes that object
             elif f.attr in _MUTATING_METHODS + ("clear",):
                 add(path_root(f.value))
+        elif isinstance(s, ast.Delete):
+            for t in s.targets:
+                add(path_root(t))
+        elif isinstance(s, ast.Return) and isinstance(s.value, ast.Call) and _is_self_attr(s.value.func) \
+                and s.value.func.attr in ("_remove_helper",):
+            add("self")
         elif isinstance(s, ast.If):
             for n in assigned(s.body, mutators) + assigned(s.orelse, mutators):
                 add(n)
@@ -391,7 +397,8 @@ class Fn:
         if isinstance(e, ast.BinOp) and isinstance(e.op, ast.BitAnd) and self.ty(e.left) == "Q":
             return f"(ext.qand {self.atom(e.left)} {self.atom(e.right)})"
         if isinstance(e, ast.Compare) and self.ty(e) == "Q":
-            return f"(ext.meas_eq {self.atom(e.comparators[0])})"
+            rhs = self.atom(e.comparators[0])
+            return f"(ext.meas_eq (some {rhs}))" if self.ty(e.comparators[0]) == "String" else f"(ext.meas_eq {rhs})"
         if isinstance(e, ast.BinOp):
             if isinstance(e.op, ast.Add):
                 return f"({self.ex(e.left)} + {self.ex(e.right)})"
@@ -703,6 +710,18 @@ class Fn:
         if isinstance(s, ast.Return):
             if s.value is None:
                 return f"{ind}pure self\n" if self.mutator else f"{ind}pure ()\n"
+            if (self.mutval and isinstance(s.value, ast.Call) and _is_self_attr(s.value.func)
+                    and s.value.func.attr in self.cls.mutvals and not s.value.keywords):
+                # return self._helper(…): the helper changes the object and answers the value
+                callee = self.cls.methods[s.value.func.attr]
+                args = []
+                for a, prm in zip(s.value.args, callee.args.args[1:]):
+                    t = self.atom(a)
+                    want, have = parse_type(prm.annotation), self.ty(a)
+                    if isinstance(want, tuple) and want[0] == "Option" and have is not None and have == want[1]:
+                        t = f"(some {t})"          # a plain value where an Optional is expected
+                    args.append(t)
+                return f"{ind}{s.value.func.attr} ext self {' '.join(args)}\n"
             if self.mutval:
                 return f"{ind}pure (self, {self.ex(s.value)})\n"
             if self.mutator:
@@ -714,6 +733,11 @@ class Fn:
             if not name:
                 raise Unsupported("raise " + ast.dump(s))
             return f"{ind}throw PyErr.{name}\n"
+        if (isinstance(s, ast.Delete) and len(s.targets) == 1 and isinstance(s.targets[0], ast.Subscript)
+                and _is_self_attr(s.targets[0].value)):
+            a = s.targets[0].value.attr
+            return (f"{ind}let self := {{ self with {a} := (delItem self.{a} {self.atom(s.targets[0].slice)}) }}\n"
+                    + self.block(rest, k, ind, defined))
         if isinstance(s, ast.Assert):
             i2 = ind + "  "
             return (f"{ind}if (!{self.cond(s.test)}) then do\n{i2}throw PyErr.assertionError\n{ind}else do\n"
@@ -1147,7 +1171,7 @@ INDEX_METHODS = [
 # the methods of `TinyFlux` that are translated (the list level: storage is the decoded view of its rows)
 DATABASE_METHODS = ["_reset_database", "_remove_helper", "count", "contains",
                     "__len__", "get_field_keys", "get_field_values", "get_measurements", "get_tag_keys", "get_timestamps",
-                    "search", "get", "reindex", "remove_all", "all"]
+                    "search", "get", "reindex", "remove_all", "all", "remove", "drop_measurement"]
 INDEX_READERS = ("get_field_keys", "get_field_values", "get_measurements", "get_tag_keys", "get_tag_values", "get_timestamps")
 
 
